@@ -236,6 +236,118 @@ fn api_roundtrip(ctx: &mut Ctx, c: &ApiMsg) -> Res {
     Ok(())
 }
 
+// ---------------------------------------------------------------- (a2) API call sequences on one message object
+
+/// interleaving of add_field with the read-only API (encoded_size, encode, calculate_padding_length, getters) and clear()
+#[derive(Debug, Clone, Serialize, Deserialize)]
+pub enum ApiOp {
+    Add(u8, Hex),
+    Size,
+    Encode,
+    EncodeFramed,
+    PaddingLen,
+    Clear,
+    CloneAndCompare,
+}
+
+fn api_ops() -> impl Strategy<Value = Vec<ApiOp>> {
+    let op = prop_oneof![
+        6 => (0u8..18, bytes(aligned_len(24))).prop_map(|(t, v)| ApiOp::Add(t, v)),
+        3 => Just(ApiOp::Size),
+        2 => Just(ApiOp::Encode),
+        1 => Just(ApiOp::EncodeFramed),
+        1 => Just(ApiOp::PaddingLen),
+        1 => Just(ApiOp::Clear),
+        1 => Just(ApiOp::CloneAndCompare),
+    ];
+    proptest::collection::vec(op, 1..=24)
+}
+
+fn api_sequence(ctx: &mut Ctx, ops: &Vec<ApiOp>) -> Res {
+    ctx.eval();
+    let mut m = RtMessage::with_capacity(4);
+    let mut model = Msg::new();
+    let mut grew_after_read = false;
+    let mut read_since_clear = false;
+    for (n, op) in ops.iter().enumerate() {
+        let r = no_unwind(|| -> Result<(), String> {
+            match op {
+                ApiOp::Add(t, v) => {
+                    let tag = rc::KNOWN[*t as usize % 18];
+                    let ok_model = model.fields.last().map(|l| tag > l.0).unwrap_or(true);
+                    let r = m.add_field(tag_of(tag), &v.0);
+                    if r.is_ok() != ok_model {
+                        return Err(format!("add_field({}) returned {:?} but strictly ascending order says {}", rc::tag_name(tag), r.is_ok(), ok_model));
+                    }
+                    if ok_model {
+                        model.fields.push((tag, v.0.clone()));
+                    }
+                }
+                ApiOp::Size => {
+                    if m.encoded_size() != model.encode().len() {
+                        return Err(format!("encoded_size() = {} but the encoding has {} bytes", m.encoded_size(), model.encode().len()));
+                    }
+                }
+                ApiOp::Encode => {
+                    let e = m.encode().map_err(|e| format!("encode error {:?}", e))?;
+                    if e != model.encode() {
+                        return Err(format!("encode() = {} differs from the reference {}", rc::hex(&e), rc::hex(&model.encode())));
+                    }
+                }
+                ApiOp::EncodeFramed => {
+                    let e = m.encode_framed().map_err(|e| format!("encode_framed error {:?}", e))?;
+                    if e != model.encode_framed() {
+                        return Err("encode_framed() differs from the reference".into());
+                    }
+                }
+                ApiOp::PaddingLen => {
+                    let size = model.encode().len();
+                    let want = if size >= 1024 { 0 } else if model.fields.len() == 1 { 1024 - size - 4 } else { 1024 - size };
+                    let got = m.calculate_padding_length();
+                    if got != want {
+                        return Err(format!("calculate_padding_length() = {} for a {}-byte message with {} fields, expected {}", got, size, model.fields.len(), want));
+                    }
+                }
+                ApiOp::Clear => {
+                    m.clear();
+                    model = Msg::new();
+                }
+                ApiOp::CloneAndCompare => {
+                    let c = m.clone();
+                    if impl_fields(&c) != model.fields || c.num_fields() as usize != model.fields.len() {
+                        return Err("clone/tags()/values() disagree with the fields added".into());
+                    }
+                    for (t, v) in &model.fields {
+                        if c.get_field(tag_of(*t)) != Some(v.as_slice()) {
+                            return Err(format!("get_field({}) wrong", rc::tag_name(*t)));
+                        }
+                    }
+                }
+            }
+            Ok(())
+        });
+        match op {
+            ApiOp::Add(..) => {
+                if read_since_clear {
+                    grew_after_read = true;
+                }
+            }
+            ApiOp::Clear => read_since_clear = false,
+            _ => read_since_clear = true,
+        }
+        match r {
+            Ok(Ok(())) => {}
+            Ok(Err(e)) => return ctx.fail("api-sequence-mismatch", format!("op #{} {:?}: {}", n, op, e)),
+            Err(p) => return ctx.fail(format!("api-sequence-panic|{}", panic_site(&p)), format!("op #{} {:?}: {}", n, op, p)),
+        }
+    }
+    ctx.class(&format!("api-seq:{}", if grew_after_read { "grew-after-read" } else { "plain" }));
+    if grew_after_read {
+        ctx.nontrivial(&rc::hex(&model.encode()));
+    }
+    Ok(())
+}
+
 // ---------------------------------------------------------------- (b) bounded-exhaustive word strings
 
 pub const ALPHABET: [u32; 16] = [
@@ -498,7 +610,7 @@ pub struct NestedCase {
 }
 
 fn nested_case() -> impl Strategy<Value = NestedCase> {
-    (0u8..3, 0u8..5, api_msg(16), bytes(aligned_len(32)), any::<u16>(), api_msg(8), prop_oneof![4 => 1u16..=12, 2 => 1u16..=64, 1 => 64u16..=600]).prop_map(|(which, shape, inner, junk, cut, others, depth)| NestedCase {
+    (0u8..4, 0u8..6, api_msg(16), bytes(aligned_len(32)), any::<u16>(), api_msg(8), prop_oneof![4 => 1u16..=12, 2 => 1u16..=64, 1 => 64u16..=600]).prop_map(|(which, shape, inner, junk, cut, others, depth)| NestedCase {
         which,
         shape,
         depth,
@@ -512,7 +624,14 @@ fn nested_case() -> impl Strategy<Value = NestedCase> {
 fn nested_bytes(c: &NestedCase) -> Vec<u8> {
     let nested_tag = [rc::CERT, rc::DELE, rc::SREP][c.which as usize % 3];
     let inner_enc = c.inner.to_ref().encode();
-    let payload: Vec<u8> = match c.shape % 5 {
+    if c.shape % 6 == 5 {
+        // one plain 4-letter tag with a big value (10,000..60,000 bytes) next to the other fields
+        let mut m = c.others.to_ref();
+        let big = 10_000 + (c.cut as usize % 12_500) * 4;
+        m.set([rc::NONC, rc::PATH, rc::ROOT, rc::ZZZZ][c.which as usize % 4], vec![0x7eu8; big]);
+        return m.encode();
+    }
+    let payload: Vec<u8> = match c.shape % 6 {
         4 => {
             // innermost: the generated inner message; then `depth` wrappers cycling through the nested tags
             let mut cur = c.inner.to_ref().encode();
@@ -554,6 +673,10 @@ pub fn run(mode: Mode, ctx: &mut Ctx) -> Vec<Violation> {
 
     if mode == Mode::C05 {
         out.extend(run_prop(ctx, "api", t.pick(60_000, 600_000), 2000, api_msg(512), |ctx, c| api_roundtrip(ctx, c)));
+        out.extend(run_prop(ctx, "api-sequences", t.pick(60_000, 600_000), 2000, api_ops(), |ctx, ops| {
+            ctx.sample("api-sequences", 2, ops);
+            api_sequence(ctx, ops)
+        }));
         // occasionally very large messages (up to 64 KiB total)
         out.extend(run_prop(ctx, "api-large", t.pick(1_000, 10_000), 500, api_msg(4096), |ctx, c| {
             let total: usize = c.fields.iter().map(|f| f.1.len()).sum();
@@ -616,13 +739,13 @@ pub fn run(mode: Mode, ctx: &mut Ctx) -> Vec<Violation> {
             check(mode, ctx, &c.bytes.0, "random")
         }));
         // arithmetic-targeting: count in a fixed list × small bodies
-        let counts = prop::sample::select(vec![0u32, 1, 2, 3, 1024, 1025, 1 << 30, u32::MAX, 0x4000_0001, 0x2000_0001]);
+        let counts = prop_oneof![3 => prop::sample::select(vec![0u32, 1, 2, 3, 17, 18, 19, 20, 21, 32, 64, 255, 256, 1000, 1023, 1024, 1025, 1 << 30, u32::MAX, 0x4000_0001, 0x2000_0001]), 1 => 2u32..=40];
         out.extend(run_prop(
             ctx,
             "count-arith",
             t.pick(60_000, 600_000),
             1000,
-            (counts, proptest::collection::vec(boundary_word(), 0..12)).prop_map(|(c, ws)| {
+            (counts, prop_oneof![2 => proptest::collection::vec(boundary_word(), 0..12), 2 => proptest::collection::vec(prop_oneof![4 => (0u32..64).prop_map(|w| w * 4), 1 => boundary_word()], 12..80)]).prop_map(|(c, ws)| {
                 let mut b = c.to_le_bytes().to_vec();
                 for w in ws {
                     b.extend_from_slice(&w.to_le_bytes());
@@ -634,7 +757,7 @@ pub fn run(mode: Mode, ctx: &mut Ctx) -> Vec<Violation> {
         out.extend(run_prop(ctx, "nested-display", t.pick(80_000, 800_000), 2000, nested_case(), |ctx, c| {
             let x = nested_bytes(c);
             ctx.sample("nested", 3, c);
-            check(mode, ctx, &x, &format!("nested-shape{}{}", c.shape % 5, if c.shape % 5 == 4 { format!(":depth{}", if c.depth < 8 { "<8" } else if c.depth < 64 { "8-63" } else { ">=64" }) } else { String::new() }))
+            check(mode, ctx, &x, &format!("nested-shape{}{}", c.shape % 6, if c.shape % 6 == 4 { format!(":depth{}", if c.depth < 8 { "<8" } else if c.depth < 64 { "8-63" } else { ">=64" }) } else { String::new() }))
         }));
     }
     out
@@ -643,6 +766,7 @@ pub fn run(mode: Mode, ctx: &mut Ctx) -> Vec<Violation> {
 pub fn replay(mode: Mode, ctx: &mut Ctx, sub: &str, case: &Value) -> Res {
     match sub {
         "api" | "api-large" => replay_case::<ApiMsg, _>(ctx, case, |ctx, c| api_roundtrip(ctx, c)),
+        "api-sequences" => replay_case::<Vec<ApiOp>, _>(ctx, case, |ctx, c| api_sequence(ctx, c)),
         "exh-words" | "near-tags" | "random" | "count-arith" | "raw" => replay_case::<RawCase, _>(ctx, case, |ctx, c| check(mode, ctx, &c.bytes.0, "replay")),
         "mutants" | "mutants-large" => replay_case::<MutCase, _>(ctx, case, |ctx, c| {
             let base = c.base.to_ref().encode();
